@@ -13,7 +13,7 @@ from vt.props import common as cm
 PID = "C01"
 RULE = (
     "Hypothesis-generated worker scenarios on the virtual-time loop: 1-9 messages (well-formed async/sync tasks, a task of a shared broker, a task with a parameter annotated by a plain class (no pydantic schema) that gets a value, a task registered only after the receiver was built, a task registered while the worker is already running (messages for it taken earlier are unknown-task messages), "
-    "malformed payloads of 9 shapes, unknown task), arrival instants on a 0.05 s grid plus points on/around the "
+    "a timeout label given as a number or as a string, malformed payloads of 9 shapes, unknown task under look-alike names), arrival instants on a 0.05 s grid plus points on/around the "
     "receiver's 0.3 s poll grid, durations 0-3 s, A in 1..4|None, P in 0..4, N in None|1..5, stop instant anywhere "
     "or absent, stream ending or blocking. Oracle over the trace of the real Receiver.listen(): per well-formed "
     "taken message exactly one task-function entry; none for skipped ones; listen() raises nothing; removing the "
@@ -46,7 +46,7 @@ def scenario(big: bool = False) -> Any:
         "A": st.sampled_from([1, 1, 2, 3, 4, None] + ([5, 6, 8] if big else [])),
         "P": st.integers(0, 7 if big else 4),
         "N": st.sampled_from([None, None, 1, 2, 3, 4, 5] + ([6, 8, 11] if big else [])),
-        "msgs": st.lists(cm.message(kinds=("async", "async", "async", "sync", "bad", "unknown", "shared", "late", "dyn", "dyn", "plaincls")), min_size=1, max_size=16 if big else 9),
+        "msgs": st.lists(cm.message(kinds=("async", "async", "async", "sync", "bad", "unknown", "shared", "late", "dyn", "dyn", "plaincls"), timeouts=(None, None, None, None, 3, "3", "0.35", 1.5, "5")), min_size=1, max_size=16 if big else 9),
         "stop": cm.times(),
         "has_stop": st.booleans(),
         "ends": st.booleans(),
